@@ -18,6 +18,10 @@
    D. depth-guarded recursion (generic) and its instance, the default Check engine model;
       structural recursion over a nested message is bounded by half its wire size.
    E. pkg/tuple splitting / joining index arithmetic and the rune decoder never leave the string.
+   F. typesystem.hasCycle (model validation) walks every PATH of the computed-userset graph:
+      its number of calls on a valid model of n+1 relations is 2^(n+2)-3 -- "validation cost is
+      polynomial in the model" is refuted (finding model_validation_exponential: a 1 KB model
+      keeps WriteAuthorizationModel busy far beyond the request deadline).
 
    NOT covered by proof (explored by the driver only, see checks/C19.json): everything else the
    request touches -- protobuf and JSON decoding, protoc-gen-validate, cel-go, the typesystem
@@ -320,3 +324,42 @@ Print Assumptions no_oob_rune_decode.
 (* a truncated 4-byte sequence: width 1, not 4 *)
 Example no_oob_rune_decode_ex : Utf8.decode1 240 [159; 152] = (65533, 1%nat).
 Proof. reflexivity. Qed.
+
+(* ================================================================== *)
+(* F. model validation: hasCycle enumerates paths                        *)
+(* ================================================================== *)
+
+(* THE FULL-STRENGTH STATEMENT one wants: the number of hasCycle calls is bounded by a polynomial
+   in the size of the model (so that a model below the 256 KB limit cannot hold a request beyond
+   its deadline).  The faithful model of the code refutes it.  [diamond n] is the VALID model
+     define e_i: e_{i+1} or e_{i+1}  (i < n),  define e_n: [user]
+   with n+1 relations and 3n+1 rewrite nodes. *)
+Theorem hascycle_calls_diamond : forall (n : nat) (b : N), diamond_calls n <= b ->
+  has_cycle (2 * n + 1) (diamond n) 0 (RNode [RComputed 1; RComputed 1]) [] b
+  = (HNo, b - diamond_calls n) \/ n = 0%nat.
+Proof. exact NoPanicProofs.hascycle_calls_diamond. Qed.
+Print Assumptions hascycle_calls_diamond.
+
+Theorem diamond_calls_exponential : forall k : nat, 2 ^ N.of_nat k <= diamond_calls k.
+Proof. exact NoPanicProofs.diamond_calls_exponential. Qed.
+Print Assumptions diamond_calls_exponential.
+
+Theorem diamond_size : forall n : nat,
+  length (diamond n) = S n /\ list_sum (map rw_nodes (diamond n)) = (3 * n + 1)%nat.
+Proof. intro n. split; [exact (NoPanicProofs.diamond_length n) | exact (NoPanicProofs.diamond_nodes n)]. Qed.
+Print Assumptions diamond_size.
+
+Theorem model_validation_cost_refuted :
+  exists tab : reltab,
+    length tab = 19%nat /\ list_sum (map rw_nodes tab) = 55%nat /\
+    fst (model_cost 100 [tab] 100000) = HBudget.
+Proof. exact NoPanicProofs.model_validation_cost_refuted. Qed.
+Print Assumptions model_validation_cost_refuted.
+(* 4 levels: 61 calls for the first relation, 109 for the whole type; a chain costs 2 per level *)
+Example hascycle_ex :
+  has_cycle 9 (diamond 4) 0 (RNode [RComputed 1; RComputed 1]) [] 1000 = (HNo, 939) /\
+  model_cost 9 [diamond 4] 1000 = (HNo, 891) /\
+  model_cost 9 [[RComputed 1; RComputed 2; RThis]] 1000 = (HNo, 994) /\
+  fst (model_cost 9 [[RComputed 1; RComputed 0]] 1000) = HCycle /\
+  fst (model_cost 9 [[RComputed 7]] 1000) = HErr.
+Proof. repeat split; vm_compute; reflexivity. Qed.
